@@ -132,7 +132,7 @@ CHECKS = {
     "C18": {
         "scenarios": [{"name": "api", "race": True}],
         "accept": ["api:", "race:"],
-        "technique": "Lean (call granularity): API calls never change the committed database, see committed state only, but move the shared averaging cache (kernel-checked witness); regenerated lists of API sites touching shared node state and of goroutine starts. Tie/support: real srv handlers over HTTP from 6 goroutines during real sync, ledger compared with the load-free run; a phase in which a reader outlasts the busy timeout so that COMMITs fail with 'database is locked' (rollback journal, the default) and must be retried; binary built with -race, reports parsed",
+        "technique": "Lean (call granularity): API calls never change the committed database, see committed state only, but move the shared averaging cache (kernel-checked witness); regenerated lists of API sites touching shared node state, of goroutine starts and of every package-level variable of the packages both sides run (a new one breaks the obligation). Tie/support: real srv handlers over HTTP from 6 goroutines during real sync, ledger compared with the load-free run; a phase in which a reader outlasts the busy timeout so that COMMITs fail with 'database is locked' (rollback journal, the default) and must be retried; binary built with -race, reports parsed",
         "assumptions": [SQLITE, "goroutine interleavings inside one call cannot be exhibited by the sequential model: the race detector run supports, it does not prove"],
         "design_ref": "DESIGN.md §7 C18",
     },
